@@ -3,7 +3,7 @@
 # patch applied (the registered way is `git -C /repo apply` + check + `git -C /repo checkout -- .`; this variant does
 # not disturb /repo while other work is using it).
 set -e
-prop="$1"; patch="$2"; tier="${3:-quick}"
+prop="$1"; patch="$(readlink -f "$2")"; tier="${3:-quick}"
 wt="/tmp/try-$prop-$$"
 git -C /repo worktree add -q --detach "$wt" HEAD
 cp /repo/config.h "$wt"/
